@@ -125,7 +125,10 @@ fn run_case(c: &Case, out: &mut dyn Write) {
         if !due || Instant::now() > deadline { break; }
         std::thread::sleep(Duration::from_millis(20));
     }
+    // like ThreadPool::terminate: one `()` and the sender goes away (the loop's `try_recv` may
+    // swallow the message; it is the disconnect that ends it then)
     let _ = tx.send(());
+    drop(tx);
     let t_join = Instant::now();
     while !sched.is_finished() && t_join.elapsed() < Duration::from_secs(600) {
         std::thread::sleep(Duration::from_millis(10));
